@@ -690,7 +690,14 @@ func (x *Exec) applyContract(st *State, fn *ssa.Function, cts []*Contract, args 
 	pre := st.fork() // state before the call, for old() in the callee's postconditions
 	for _, ct := range cts {
 		env := &Env{vars: map[string]Value{}, pkg: x.pkgByNm[ct.pkg]}
+		recNames := recordedParamNames(x.recordedLocals[fn.String()], fn)
 		for i, p := range fn.Params {
+			if rn := recNames[p]; rn != "" && rn != p.Name() {
+				// the parameter was renamed since the contract was written
+				if _, clash := env.vars[rn]; !clash {
+					env.vars[rn] = args[i]
+				}
+			}
 			env.vars[p.Name()] = args[i]
 		}
 		env.old = pre
@@ -1245,7 +1252,14 @@ func (x *Exec) verifyContract(ct *Contract) (err error) {
 		}
 		x.pathsOf[ct.label()] = len(outs)
 		if nret == 0 && len(ct.ensures) > 0 {
-			fail("no returning path in %s", fn)
+			why := ""
+			for _, o := range outs {
+				if o.kind == oPanic {
+					why = " (a path panics: " + o.msg + ")"
+					break
+				}
+			}
+			fail("no returning path in %s%s", fn, why)
 		}
 	}
 	// proof script in source order: let (forking), assert, use, generalize
